@@ -167,8 +167,9 @@ func (g *gen) cidrs(min, max int) []string { return g.some(min, max, poolCIDR...
 // rangesP is ranges() that sometimes appends the "private_ranges" shortcut every <ranges...> option accepts.
 func (g *gen) rangesP(kind, module, option string, min, max int) []string {
 	rs := g.ranges(min, max)
-	if g.p(0.06) {
-		rs = append(rs, poolPrivate)
+	if g.p(0.15) {
+		at := g.n(len(rs) + 1)
+		rs = append(rs[:at:at], append([]string{poolPrivate}, rs[at:]...)...)
 		g.use(kind, module, option+"_private_ranges")
 	}
 	return rs
@@ -355,8 +356,13 @@ func (g *gen) matcherNamed(name string, depth int) *Node {
 	case "local_ip", "remote_ip":
 		n.Args = g.ranges(1, 3)
 		u("ranges")
-		if g.p(0.08) {
-			n.Args = append(n.Args, poolPrivate)
+		if g.p(0.3) {
+			// the shortcut anywhere among the ranges: first, in the middle, last, or on its own
+			at := g.n(len(n.Args) + 1)
+			n.Args = append(n.Args[:at:at], append([]string{poolPrivate}, n.Args[at:]...)...)
+			if g.p(0.15) {
+				n.Args = []string{poolPrivate}
+			}
 			u("private_ranges")
 		}
 	case "not":
@@ -1019,6 +1025,18 @@ func (g *gen) container(depth int, kind, module string) *Container {
 			m := g.matcher(depth, ex)
 			ex[m.Name] = true
 			s.Matchers = append(s.Matchers, m)
+		}
+		// both address matchers in one set, each written as the shortcut followed by one or two ranges of its own
+		if g.p(0.06) && !ex["remote_ip"] && !ex["local_ip"] {
+			for _, name := range []string{"remote_ip", "local_ip"} {
+				m := &Node{Name: name, Args: append([]string{poolPrivate}, g.ranges(1, 2)...)}
+				g.use("matcher", name, "")
+				g.use("matcher", name, "ranges")
+				g.use("matcher", name, "private_ranges")
+				ex[name] = true
+				s.Matchers = append(s.Matchers, m)
+			}
+			k += 2
 		}
 		if k == 1 && g.p(0.7) {
 			s.Inline = true
